@@ -62,6 +62,8 @@ def sect(v):
     return W(LEVEL, v)
 '''
 
+NGROUPS = 97
+
 STOCK_KEYTYPES = ["basic-key", "identifier", "ipaddr-or-hostname"]
 STOCK_VALUETYPES = [None, None, "integer", "boolean", "string-list",
                     "port-number", "byte-size"]
@@ -286,9 +288,11 @@ class Scenario:
 
     def build(self):
         rnd = self.rnd
-        p3 = Doc("component", "%s.s%dp3" % (self.root, self.idx))
-        p1 = Doc("component", "%s.s%dp1" % (self.root, self.idx))
-        p2 = Doc("component", "%s.s%dp2" % (self.root, self.idx))
+        # sharded so that no directory on the import path grows large
+        group = "%s.g%d" % (self.root, self.idx % NGROUPS)
+        p3 = Doc("component", "%s.s%dp3" % (group, self.idx))
+        p1 = Doc("component", "%s.s%dp1" % (group, self.idx))
+        p2 = Doc("component", "%s.s%dp2" % (group, self.idx))
         for i in range(rnd.randint(0, 2)):
             a = TypeDef("c3abs%d" % i, abstract=True)
             a.doc = p3
@@ -681,7 +685,7 @@ def work(item):
     col = Collector()
     scn = Scenario(rnd, root, idx).build()
     comp = Composer(scn, rnd)
-    sdir = os.path.join(tmp, "scn%d" % idx)
+    sdir = os.path.join(tmp, "scn%d" % (idx % NGROUPS), "scn%d" % idx)
     os.mkdir(sdir)
     files = {}
     for d in scn.comps:
@@ -763,6 +767,12 @@ def run(tier, seed):
             with open(os.path.join(d, "conv.py"), "w") as f:
                 f.write(CONV_SRC)
             d = os.path.join(d, "sub")
+        for g in range(NGROUPS):
+            os.mkdir(os.path.join(tmp, "scn%d" % g))
+            os.mkdir(os.path.join(tmp, root, "g%d" % g))
+            with open(os.path.join(tmp, root, "g%d" % g, "__init__.py"),
+                      "w"):
+                pass
         sys.path.insert(0, tmp)
         parts = pmap(work, [(seed, i, tmp, root, ntexts)
                             for i in range(nscn)], chunksize=2)
